@@ -39,6 +39,7 @@ func (e *executor[R]) Apply(innerFn func(failsafe.Execution[R]) *common.PolicyRe
 			if e.isRetriesExceeded() {
 				return result
 			}
+			verifhook.Yield("retry.afterExceededCheck")
 
 			result = e.PostExecute(execInternal, result)
 			if result.Done {
